@@ -7,6 +7,7 @@
      left_join_partition   xor rows ++ matched rows is a Permutation of all row indices
    Part 2: tcmp (cmp on tuples of scalar cells) is such a comparator.
    Part 3: table level wrappers and the refutation of the pinned (==) variant. *)
+From Coq Require Import String.
 From Coq Require Import ZArith List Bool Lia Permutation Sorted.
 From PB Require Import model.M_join.
 Import ListNotations.
@@ -700,3 +701,217 @@ Section Laws.
   Qed.
 End Laws.
 
+(* ------------------------------------------------------------------ Part 2: tcmp is a lawful comparator *)
+Lemma zcmp_range a b : zcmp a b = -1 \/ zcmp a b = 0 \/ zcmp a b = 1.
+Proof. unfold zcmp. destruct (Z.ltb_spec a b), (Z.ltb_spec b a); lia. Qed.
+Lemma zcmp_anti a b : zcmp b a = - zcmp a b.
+Proof. unfold zcmp. destruct (Z.ltb_spec a b), (Z.ltb_spec b a); lia. Qed.
+Lemma zcmp_trans a b c : zcmp a b <= 0 -> zcmp b c <= 0 -> zcmp a c <= 0.
+Proof.
+  unfold zcmp. destruct (Z.ltb_spec a b), (Z.ltb_spec b a), (Z.ltb_spec b c), (Z.ltb_spec c b),
+    (Z.ltb_spec a c), (Z.ltb_spec c a); lia.
+Qed.
+Lemma zcmp_eq a b : zcmp a b = 0 <-> a = b.
+Proof. unfold zcmp. destruct (Z.ltb_spec a b), (Z.ltb_spec b a); lia. Qed.
+
+Lemma zcmp_lt a b : zcmp a b = -1 <-> a < b.
+Proof. unfold zcmp. destruct (Z.ltb_spec a b), (Z.ltb_spec b a); lia. Qed.
+
+Lemma lcmp_range a : forall b, lcmp a b = -1 \/ lcmp a b = 0 \/ lcmp a b = 1.
+Proof.
+  induction a as [|x a IH]; destruct b as [|y b]; simpl; try lia.
+  destruct (zcmp x y =? 0) eqn:E; [apply IH | apply Z.eqb_neq in E; pose proof (zcmp_range x y); lia].
+Qed.
+Lemma lcmp_anti a : forall b, lcmp b a = - lcmp a b.
+Proof.
+  induction a as [|x a IH]; destruct b as [|y b]; simpl; try lia.
+  pose proof (zcmp_anti x y). destruct (zcmp x y =? 0) eqn:E, (zcmp y x =? 0) eqn:E'; try apply IH;
+    rewrite ?Z.eqb_eq, ?Z.eqb_neq in *; lia.
+Qed.
+Lemma lcmp_trans a : forall b c, lcmp a b <= 0 -> lcmp b c <= 0 -> lcmp a c <= 0.
+Proof.
+  induction a as [|x a IH]; destruct b as [|y b]; destruct c as [|z c]; simpl; try lia.
+  unfold zcmp.
+  destruct (Z.ltb_spec x y), (Z.ltb_spec y x), (Z.ltb_spec y z), (Z.ltb_spec z y), (Z.ltb_spec x z), (Z.ltb_spec z x);
+    simpl; try lia; apply IH.
+Qed.
+
+Lemma ccmp_range a b : ccmp a b = -1 \/ ccmp a b = 0 \/ ccmp a b = 1.
+Proof. destruct a, b; unfold ccmp; simpl; try lia; try apply zcmp_range; apply lcmp_range. Qed.
+Lemma ccmp_anti a b : ccmp b a = - ccmp a b.
+Proof. destruct a, b; unfold ccmp; simpl; try lia; try apply zcmp_anti; apply lcmp_anti. Qed.
+Lemma ccmp_trans a b c : ccmp a b <= 0 -> ccmp b c <= 0 -> ccmp a c <= 0.
+Proof. destruct a, b, c; unfold ccmp; simpl; try lia; try apply zcmp_trans; apply lcmp_trans. Qed.
+
+Lemma cmparr_range a : forall b, cmparr a b = -1 \/ cmparr a b = 0 \/ cmparr a b = 1.
+Proof.
+  induction a as [|x a IH]; destruct b as [|y b]; simpl; try lia.
+  destruct (ccmp x y =? 0) eqn:E; [apply IH | apply Z.eqb_neq in E; pose proof (ccmp_range x y); lia].
+Qed.
+Lemma cmparr_anti a : forall b, cmparr b a = - cmparr a b.
+Proof.
+  induction a as [|x a IH]; destruct b as [|y b]; simpl; try lia.
+  pose proof (ccmp_anti x y). destruct (ccmp x y =? 0) eqn:E, (ccmp y x =? 0) eqn:E'; try apply IH;
+    rewrite ?Z.eqb_eq, ?Z.eqb_neq in *; lia.
+Qed.
+Lemma cmparr_trans a : forall b c, length a = length b -> length b = length c ->
+  cmparr a b <= 0 -> cmparr b c <= 0 -> cmparr a c <= 0.
+Proof.
+  induction a as [|x a IH]; destruct b as [|y b]; destruct c as [|z c]; simpl; try lia; try discriminate.
+  intros L1 L2.
+  pose proof (ccmp_range x y). pose proof (ccmp_range y z). pose proof (ccmp_range x z).
+  pose proof (keq_trans cell ccmp ccmp_range ccmp_anti ccmp_trans x y z).
+  pose proof (lt_le_trans cell ccmp ccmp_range ccmp_anti ccmp_trans x y z).
+  pose proof (le_lt_trans cell ccmp ccmp_range ccmp_anti ccmp_trans x y z).
+  pose proof (ccmp_trans x y z).
+  destruct (ccmp x y =? 0) eqn:E1, (ccmp y z =? 0) eqn:E2, (ccmp x z =? 0) eqn:E3;
+    rewrite ?Z.eqb_eq, ?Z.eqb_neq in *; try lia. apply IH; lia.
+Qed.
+
+Lemma tcmp_range a b : tcmp a b = -1 \/ tcmp a b = 0 \/ tcmp a b = 1.
+Proof.
+  unfold tcmp. destruct (zcmp _ _ =? 0) eqn:E; [apply cmparr_range|].
+  apply Z.eqb_neq in E. pose proof (zcmp_range (Z.of_nat (length a)) (Z.of_nat (length b))). lia.
+Qed.
+Lemma tcmp_anti a b : tcmp b a = - tcmp a b.
+Proof.
+  unfold tcmp. pose proof (zcmp_anti (Z.of_nat (length a)) (Z.of_nat (length b))).
+  destruct (zcmp (Z.of_nat (length a)) _ =? 0) eqn:E, (zcmp (Z.of_nat (length b)) _ =? 0) eqn:E';
+    rewrite ?Z.eqb_eq, ?Z.eqb_neq in *; try lia. apply cmparr_anti.
+Qed.
+Lemma tcmp_trans a b c : tcmp a b <= 0 -> tcmp b c <= 0 -> tcmp a c <= 0.
+Proof.
+  unfold tcmp, zcmp.
+  destruct (Z.ltb_spec (Z.of_nat (length a)) (Z.of_nat (length b))), (Z.ltb_spec (Z.of_nat (length b)) (Z.of_nat (length a))),
+    (Z.ltb_spec (Z.of_nat (length b)) (Z.of_nat (length c))), (Z.ltb_spec (Z.of_nat (length c)) (Z.of_nat (length b))),
+    (Z.ltb_spec (Z.of_nat (length a)) (Z.of_nat (length c))), (Z.ltb_spec (Z.of_nat (length c)) (Z.of_nat (length a)));
+    simpl; try lia.
+  apply cmparr_trans; lia.
+Qed.
+
+(* ------------------------------------------------------------------ Part 3: tables; mode 'r'; the pinned tree *)
+Section Flip.
+  Variable key : Type.
+  Variable kcmp : key -> key -> Z.
+  Hypothesis Hrange : forall a b, kcmp a b = -1 \/ kcmp a b = 0 \/ kcmp a b = 1.
+  Hypothesis Hanti : forall a b, kcmp b a = - kcmp a b.
+  Hypothesis Htrans : forall a b c, kcmp a b <= 0 -> kcmp b c <= 0 -> kcmp a c <= 0.
+
+  Definition flip_ev (e : ev key) : ev key :=
+    match e with OnlyL g => OnlyR g | OnlyR g => OnlyL g | Both a b => Both b a end.
+  Lemma smerge_flip L : forall R, smerge key kcmp R L = map flip_ev (smerge key kcmp L R).
+  Proof.
+    induction L as [|gl L IHL]; intros R.
+    { rewrite smerge_nil_l, smerge_nil_r, map_map. reflexivity. }
+    induction R as [|gr R IHR].
+    { rewrite smerge_nil_l, smerge_nil_r, map_map. reflexivity. }
+    rewrite !smerge_cons. pose proof (Hanti (fst gl) (fst gr)) as A. pose proof (Hrange (fst gl) (fst gr)).
+    destruct (kcmp (fst gl) (fst gr) =? -1) eqn:E1, (kcmp (fst gl) (fst gr) =? 1) eqn:E2,
+             (kcmp (fst gr) (fst gl) =? -1) eqn:E3, (kcmp (fst gr) (fst gl) =? 1) eqn:E4;
+      rewrite ?Z.eqb_eq, ?Z.eqb_neq in *; try lia; cbn [map flip_ev]; f_equal; auto.
+  Qed.
+  Lemma ev_right_flip evs : flat_map (ev_right key) evs = flat_map (ev_left key) (map flip_ev evs).
+  Proof. induction evs as [|e evs IH]; simpl; auto. rewrite IH. destruct e as [g|g|a b]; reflexivity. Qed.
+
+  (* xor in mode 'r' is the anti-join the other way round *)
+  Theorem xor_r_is_antijoin lk rk : exists ys,
+    xor_rows_r key kcmp (geq0 key kcmp) lk rk = Some ys /\ Permutation ys (spec_anti key kcmp rk lk).
+  Proof.
+    destruct (xor_is_antijoin key kcmp Hrange Hanti Htrans rk lk) as (ys & E & P).
+    exists ys. split; [|exact P].
+    unfold xor_rows_r. unfold xor_rows in E. rewrite merged_eq in *; auto. simpl in *.
+    rewrite ev_right_flip, <- smerge_flip. exact E.
+  Qed.
+End Flip.
+
+Definition T_range := tcmp_range.
+Definition T_anti := tcmp_anti.
+Definition T_trans := tcmp_trans.
+
+Lemma tkeq_geq0 : tkeq = geq0 (list cell) tcmp.
+Proof. reflexivity. Qed.
+
+(* join on >= 1 key column: the rows are out_row of exactly the relational pairs, labelled with an equivalent key *)
+Theorem join_fixed_rows x y lc rc m cols lcs rcs :
+  let l1 := resolve_l x y lc in let r1 := resolve_r l1 rc in
+  length l1 = length r1 -> key_names l1 r1 = Some cols -> cols <> [] ->
+  eval_items x l1 = Some lcs -> eval_items y r1 = Some rcs ->
+  let lk := row_keys (nrows x) lcs in let rk := row_keys (nrows y) rcs in
+  exists ts, join_fixed x y lc rc m = Ok (out_names x y cols, map (out_row x y m cols) ts) /\
+    Permutation (map (pair_of (list cell)) ts) (spec_pairs (list cell) tcmp lk rk) /\
+    Forall (fun t => exists a b, nth_error lk (fst (pair_of _ t)) = Some a /\ nth_error rk (snd (pair_of _ t)) = Some b /\
+                                 tcmp a (fst (fst t)) = 0 /\ tcmp b (fst (fst t)) = 0) ts.
+Proof.
+  intros l1 r1 HL HK HC E1 E2 lk rk.
+  destruct (join_is_relational (list cell) tcmp T_range T_anti T_trans lk rk) as (ts & J & P & F).
+  exists ts. split; [|split; assumption].
+  unfold join_fixed, join_table. fold l1. fold r1. rewrite HL, Nat.eqb_refl. simpl negb. cbv iota.
+  rewrite HK. destruct cols as [|c0 cols]; [congruence|].
+  rewrite E1, E2. fold lk. fold rk. rewrite tkeq_geq0, J. reflexivity.
+Qed.
+
+(* no key column: the full cross product *)
+Theorem join_fixed_cross x y lc rc m :
+  let l1 := resolve_l x y lc in let r1 := resolve_r l1 rc in
+  length l1 = length r1 -> key_names l1 r1 = Some [] ->
+  join_fixed x y lc rc m =
+  Ok (out_names x y [], map (out_row x y m []) (map (fun p => ([], fst p, snd p)) (cross_pairs (nrows x) (nrows y)))).
+Proof.
+  intros l1 r1 HL HK. unfold join_fixed, join_table. fold l1. fold r1. rewrite HL, Nat.eqb_refl. simpl negb. cbv iota.
+  rewrite HK. reflexivity.
+Qed.
+
+Theorem xor_fixed_rows x y lc rc lcs rcs :
+  let l1 := resolve_l x y lc in let r1 := resolve_r l1 rc in
+  length l1 = length r1 -> l1 <> [] ->
+  eval_items x l1 = Some lcs -> eval_items y r1 = Some rcs ->
+  let lk := row_keys (nrows x) lcs in let rk := row_keys (nrows y) rcs in
+  (exists xs, xor_fixed x y lc rc false = Ok (take_rows x xs) /\ Permutation xs (spec_anti (list cell) tcmp lk rk)) /\
+  (exists ys, xor_fixed x y lc rc true = Ok (take_rows y ys) /\ Permutation ys (spec_anti (list cell) tcmp rk lk)).
+Proof.
+  intros l1 r1 HL HC E1 E2 lk rk.
+  destruct (xor_is_antijoin (list cell) tcmp T_range T_anti T_trans lk rk) as (xs & X & PX).
+  destruct (xor_r_is_antijoin (list cell) tcmp T_range T_anti T_trans lk rk) as (ys & Y & PY).
+  split; [exists xs | exists ys]; (split; [|assumption]);
+    unfold xor_fixed, xor_table; fold l1; fold r1; rewrite HL, Nat.eqb_refl; simpl negb; cbv iota;
+    (destruct l1 as [|i0 l1']; [congruence|]); rewrite E1, E2; fold lk; fold rk; rewrite tkeq_geq0.
+  - rewrite X. reflexivity.
+  - rewrite Y. reflexivity.
+Qed.
+
+(* the repaired model never reports Timeout, whatever the spelling of the keys *)
+Theorem fixed_never_times_out x y lc rc m r :
+  join_fixed x y lc rc m <> Err "Timeout"%string /\ xor_fixed x y lc rc r <> Err "Timeout"%string.
+Proof.
+  split.
+  - unfold join_fixed, join_table.
+    destruct (negb _); [discriminate|]. destruct (key_names _ _) as [[|c cols]|]; try discriminate.
+    destruct (eval_items x _) as [lcs|]; [|discriminate]. destruct (eval_items y _) as [rcs|]; [|discriminate].
+    destruct (join_is_relational (list cell) tcmp T_range T_anti T_trans (row_keys (nrows x) lcs) (row_keys (nrows y) rcs)) as (ts & J & _).
+    rewrite tkeq_geq0, J. discriminate.
+  - unfold xor_fixed, xor_table.
+    destruct (negb _); [discriminate|]. destruct (resolve_l x y lc) as [|i0 l1]; [discriminate|].
+    destruct (eval_items x _) as [lcs|]; [|discriminate]. destruct (eval_items y _) as [rcs|]; [|destruct r; discriminate].
+    destruct (xor_is_antijoin (list cell) tcmp T_range T_anti T_trans (row_keys (nrows x) lcs) (row_keys (nrows y) rcs)) as (xs & X & _).
+    destruct (xor_r_is_antijoin (list cell) tcmp T_range T_anti T_trans (row_keys (nrows x) lcs) (row_keys (nrows y) rcs)) as (ys & Y & _).
+    rewrite tkeq_geq0, X, Y. destruct r; discriminate.
+Qed.
+
+(* operands: a call returns them as they were *)
+Lemma join_st_operands geq s lc rc m : fst (join_st geq s lc rc m) = s.
+Proof. reflexivity. Qed.
+Lemma xor_st_operands geq s lc rc r : fst (xor_st geq s lc rc r) = s.
+Proof. reflexivity. Qed.
+
+(* the pinned tree: cursors move on cmp, groups are matched with ==; two distinct NaN objects are
+   cmp-equal but not ==, so no cursor ever moves: no amount of fuel lets the loop finish *)
+Definition nanL : list (grp (list cell)) := [([CNaN 1], [0%nat])].
+Definition nanR : list (grp (list cell)) := [([CNaN 2], [0%nat])].
+Lemma pinned_merge_spins : forall fuel, merge (list cell) tcmp py_eq_key fuel nanL nanR = None.
+Proof. induction fuel as [|f IH]; [reflexivity|]. unfold nanL, nanR in *. cbn. cbn in IH. rewrite IH. reflexivity. Qed.
+Lemma pinned_listby_nan i : listby (list cell) tcmp py_eq_key [[CNaN i]] = [([CNaN i], [0%nat])].
+Proof. reflexivity. Qed.
+Lemma pinned_join_times_out :
+  join_pinned [("a"%string, [CNaN 1; CNum false 2])] [("a"%string, [CNaN 2; CNum false 2])] (SOne (KCol "a"%string)) SNone MNone = Err "Timeout"%string /\
+  xor_pinned [("a"%string, [CNaN 1; CNum false 2])] [("a"%string, [CNaN 2; CNum false 2])] (SOne (KCol "a"%string)) SNone false = Err "Timeout"%string.
+Proof. split; vm_compute; reflexivity. Qed.
